@@ -1250,3 +1250,292 @@ Section Main.
     exists c, e. tauto.
   Qed.
 End Main.
+
+Lemma consec_nodup n L : consec n L -> NoDup (map cr_cts L).
+Proof.
+  revert n. induction L as [|c L IH]; intros n H; cbn [map]; [constructor|].
+  cbn [consec] in H. destruct H as [Ec H]. constructor; [|eauto].
+  intros Hin. apply in_map_iff in Hin. destruct Hin as (c' & E & Hc').
+  pose proof (consec_in _ _ _ H Hc'). lia.
+Qed.
+
+Section Main2.
+  Variables (nk : N) (nl : nat) (next : N).
+
+  (* everything the normal-mode theorems need about a reachable log *)
+  Lemma normal_log_facts fx s L : 0 < next ->
+    xreach xop_api fx (init_xsys false true nk nl next) s L ->
+    ser fx L /\ cts_mono L /\ reads_below L /\ Forall rec_ok L /\ Forall rec_api L /\
+    consec next L /\ s_next (x_base s) = next + N.of_nat (length L).
+  Proof.
+    intros Hn R.
+    destruct (reach_ts _ _ _ _ _ _ _ _ _ eq_refl R) as [En Hc].
+    destruct (reach_read_lt _ _ _ _ _ _ _ _ _ eq_refl Hn R) as [_ Hrb].
+    repeat split; auto.
+    - eapply reach_ser; eauto.
+    - intros a b Hb. pose proof (consec_before _ _ _ _ Hc Hb). lia.
+    - eapply reach_rec_ok; eauto.
+    - eapply reach_rec_api; eauto.
+  Qed.
+
+  (* ---- C02: serializability, normal mode ---- *)
+  Theorem x_serializable_reads fx s L L1 c L2 k top : 0 < next ->
+    xreach xop_api fx (init_xsys false true nk nl next) s L ->
+    L = L1 ++ c :: L2 -> In k (cr_rd c) -> cr_rts c <= top ->
+    spec_latest (s_writes (x_base s)) k (cr_rts c) None = spec_latest (log_writes L1) k top None.
+  Proof.
+    intros Hn R E Hr Ht. destruct (normal_log_facts fx s L Hn R) as (S & Mo & Rb & Ok & Api & _).
+    destruct (reach_log _ _ _ _ _ _ _ _ _ R) as [_ Ew]. rewrite Ew. eapply serial_read_eq; eauto.
+  Qed.
+
+  Lemma api_onbase o : onbase op_api o -> xop_api o.
+  Proof. destruct o; cbn; auto. Qed.
+
+  Theorem serializable_reads ops s L1 c L2 k top :
+    Forall op_api ops -> 0 < next ->
+    exec (init_sys false true nk nl next) ops 0 = (None, s) ->
+    history (init_sys false true nk nl next) ops = L1 ++ c :: L2 -> In k (cr_rd c) -> cr_rts c <= top ->
+    spec_latest (s_writes s) k (cr_rts c) None = spec_latest (log_writes L1) k top None.
+  Proof.
+    intros Hapi Hn H E Hr Ht. pose proof (exec_reach op_api false false true nk nl next ops s Hapi H) as R.
+    apply (xreach_mono _ xop_api) in R; [|exact api_onbase].
+    exact (x_serializable_reads false _ _ L1 c L2 k top Hn R E Hr Ht).
+  Qed.
+
+  Theorem no_write_between ops s c c' k e :
+    Forall op_api ops -> 0 < next ->
+    exec (init_sys false true nk nl next) ops 0 = (None, s) ->
+    let L := history (init_sys false true nk nl next) ops in
+    In c L -> In c' L -> In k (cr_rd c) -> In e (cr_wr c') -> e_key e = k ->
+    ~ (cr_rts c < e_ver e /\ e_ver e < cr_cts c).
+  Proof.
+    intros Hapi Hn H L Hc Hc' Hr He Hk [Hlo Hhi].
+    pose proof (exec_reach op_api false false true nk nl next ops s Hapi H) as R.
+    destruct (reach_base_init _ _ _ _ _ _ _ _ _ R) as [_ Hap]. rewrite Forall_forall in Hap.
+    apply (xreach_mono _ xop_api) in R; [|exact api_onbase].
+    destruct (normal_log_facts false _ _ Hn R) as (S & Mo & Rb & Ok & Api & _).
+    destruct (ser_no_write_between false _ S Mo Ok Api c c' k e Hc Hc' (Hap _ Hc') Hr He Hk Hlo) as [->|[E _]]; try lia.
+    rewrite Forall_forall in Api. destruct (Api _ Hc) as [V _]. rewrite (V _ He) in Hhi. lia.
+  Qed.
+
+  Theorem no_lost_update ops s a b k :
+    exec (init_sys false true nk nl next) ops 0 = (None, s) ->
+    before (history (init_sys false true nk nl next) ops) a b ->
+    In k (cr_rd a) -> In k (cr_keys a) -> In k (cr_rd b) -> In k (cr_keys b) ->
+    cr_cts a <= cr_rts b.
+  Proof.
+    intros H Hb _ Hwa Hrb _.
+    pose proof (exec_reach any_op false false true nk nl next ops s (Forall_any_op ops) H) as R.
+    destruct (reach_base_init _ _ _ _ _ _ _ _ _ R) as [_ Hap]. rewrite Forall_forall in Hap.
+    eapply ser_no_lost_update; eauto.
+    - eapply reach_ser; eauto.
+    - apply Hap. destruct Hb as (L1 & L2 & L3 & ->). apply in_or_app. right. now left.
+  Qed.
+
+  Theorem no_write_skew ops s a b k1 k2 :
+    exec (init_sys false true nk nl next) ops 0 = (None, s) ->
+    let L := history (init_sys false true nk nl next) ops in
+    In a L -> In b L -> a <> b ->
+    In k2 (cr_rd a) -> In k1 (cr_keys a) -> In k1 (cr_rd b) -> In k2 (cr_keys b) ->
+    ~ (cr_rts b < cr_cts a /\ cr_rts a < cr_cts b).
+  Proof.
+    intros H L Ha Hb Hne Hra Hwa Hrb Hwb [C1 C2].
+    pose proof (exec_reach any_op false false true nk nl next ops s (Forall_any_op ops) H) as R.
+    destruct (reach_base_init _ _ _ _ _ _ _ _ _ R) as [_ Hap]. rewrite Forall_forall in Hap.
+    pose proof (reach_ser _ _ _ _ _ _ _ _ _ eq_refl R) as S. fold L in S, Hap.
+    assert (Hord: before L a b \/ before L b a).
+    { apply in_split in Ha. destruct Ha as (L1 & L2 & E). rewrite E in Hb. apply in_app_iff in Hb.
+      destruct Hb as [Hb|[Hb|Hb]]; [right|congruence|left]; rewrite E.
+      - now apply before_in_split.
+      - now apply before_split_after. }
+    destruct Hord as [Hab|Hba].
+    - eapply (ser_no_write_skew false L a b k1); eauto.
+    - eapply (ser_no_write_skew false L b a k2); eauto.
+  Qed.
+
+  (* ---- C03 ---- *)
+  Theorem x_ts_increasing fx P s L :
+    xreach P fx (init_xsys false true nk nl next) s L ->
+    consec next L /\ s_next (x_base s) = next + N.of_nat (length L) /\
+    (forall a b, before L a b -> cr_cts a < cr_cts b) /\ NoDup (map cr_cts L).
+  Proof.
+    intros R. destruct (reach_ts _ _ _ _ _ _ _ _ _ eq_refl R) as [En Hc]. repeat split; auto.
+    - intros a b. eapply consec_before; eauto.
+    - eapply consec_nodup; eauto.
+  Qed.
+
+  Theorem ts_unique_increasing d ops s :
+    exec (init_sys false d nk nl next) ops 0 = (None, s) ->
+    let L := history (init_sys false d nk nl next) ops in
+    consec next L /\ s_next s = next + N.of_nat (length L) /\
+    (forall a b, before L a b -> cr_cts a < cr_cts b) /\ NoDup (map cr_cts L) /\
+    Forall (fun c => cr_applied c = true) L.
+  Proof.
+    intros H L. pose proof (exec_reach any_op false false d nk nl next ops s (Forall_any_op ops) H) as R.
+    destruct (reach_base_init _ _ _ _ _ _ _ _ _ R) as [_ Hap].
+    destruct (reach_ts _ _ _ _ _ _ _ _ _ eq_refl R) as [En Hc]. repeat split; auto.
+    - intros a b. eapply consec_before; eauto.
+    - eapply consec_nodup; eauto.
+  Qed.
+
+  (* a transaction begun after a commit reads at or above that commit's timestamp *)
+  Theorem begin_after_commit d ops s t upd rts s' c :
+    exec (init_sys false d nk nl next) ops 0 = (None, s) ->
+    step s (Begin t upd rts) = Ok s' ->
+    In c (history (init_sys false d nk nl next) ops) -> cr_cts c <= rts.
+  Proof.
+    intros H St Hc. pose proof (exec_reach any_op false false d nk nl next ops s (Forall_any_op ops) H) as R.
+    destruct (reach_ts _ _ _ _ _ _ _ _ _ eq_refl R) as [En Hcs]. cbn [x_base] in En.
+    destruct (reach_flags _ _ _ _ _ _ _ _ _ R) as [Fm _]. cbn [x_base] in Fm.
+    pose proof (consec_in _ _ _ Hcs Hc) as B.
+    unfold step in St. rewrite Fm in St. cbn [orb] in St. destruct (rts =? s_next s - 1) eqn:E; [|discriminate].
+    apply N.eqb_eq in E. lia.
+  Qed.
+
+  Lemma api_nc_onbase o : onbase (fun o => op_api o /\ op_nocompact o) o -> xop_api_nc o.
+  Proof. destruct o; cbn; auto; intros []. Qed.
+
+  (* ... and Get returns the commit's write, or a newer committed write at or below its read
+     timestamp (histories without compaction labels; compactions preserving reads is C12) *)
+  Theorem visible_after_commit d ops s c e r :
+    (0 < nl)%nat -> Forall (fun o => op_api o /\ op_nocompact o) ops ->
+    exec (init_sys false d nk nl next) ops 0 = (None, s) ->
+    In c (history (init_sys false d nk nl next) ops) -> In e (cr_wr c) -> cr_cts c <= r ->
+    exists e', db_get (s_db s) (e_key e) r = Some e' /\ In e' (s_writes s) /\ e_key e' = e_key e /\
+               cr_cts c <= e_ver e' /\ e_ver e' <= r /\
+               (forall w, In w (s_writes s) -> e_key w = e_key e -> e_ver w <= r -> e_ver w <= e_ver e') /\
+               (e_ver e' = cr_cts c -> e' = e).
+  Proof.
+    intros Hnl HP H Hc He Hr.
+    pose proof (exec_reach _ false false d nk nl next ops s HP H) as R.
+    destruct (reach_base_init _ _ _ _ _ _ _ _ _ R) as [_ Hap]. rewrite Forall_forall in Hap.
+    apply (xreach_mono _ xop_api_nc) in R; [|exact api_nc_onbase].
+    pose proof (reach_get_newest false d nk nl next _ _ (e_key e) r Hnl R) as G. cbn [x_base] in G.
+    destruct (reach_db_inv false d nk nl next _ _ Hnl R) as (_ & _ & _ & _ & Hnd). cbn [x_base] in Hnd.
+    assert (Rapi: xreach xop_api false (init_xsys false d nk nl next) (mkX s false) (history (init_sys false d nk nl next) ops))
+      by (eapply xreach_mono; [|exact R]; intros o' [A _]; exact A).
+    pose proof (reach_rec_api _ _ _ _ _ _ _ _ Rapi) as Hapi. rewrite Forall_forall in Hapi.
+    destruct (Hapi _ Hc) as [V _].
+    destruct (reach_log _ _ _ _ _ _ _ _ _ Rapi) as [_ Ew]. cbn [x_base] in Ew.
+    assert (Hin: In e (s_writes s)) by (rewrite Ew; apply log_writes_in; eauto).
+    rewrite G. destruct (newest (s_writes s) (e_key e) r) as [e'|] eqn:En.
+    - apply newest_some in En. destruct En as (A & B & C & D). exists e'. repeat split; auto.
+      + rewrite <- (V _ He). apply D; auto. rewrite (V _ He). exact Hr.
+      + intros Ev. apply Hnd; auto. rewrite Ev. symmetry. auto.
+    - exfalso. eapply newest_none; eauto. rewrite (V _ He). exact Hr.
+  Qed.
+
+  (* atomicity by version filtering: a reader below the commit timestamp sees none of the
+     commit's entries (any tree); a reader at or above it finds all of them in the tree *)
+  Theorem atomic_none d ops s c k r e' :
+    Forall op_api ops ->
+    exec (init_sys false d nk nl next) ops 0 = (None, s) ->
+    In c (history (init_sys false d nk nl next) ops) -> r < cr_cts c ->
+    db_get (s_db s) k r = Some e' -> ~ In e' (cr_wr c).
+  Proof.
+    intros HP H Hc Hr G Hin. apply db_get_ver_le in G.
+    pose proof (exec_reach op_api false false d nk nl next ops s HP H) as R.
+    apply (xreach_mono _ xop_api) in R; [|exact api_onbase].
+    pose proof (reach_rec_api _ _ _ _ _ _ _ _ R) as Hapi. rewrite Forall_forall in Hapi.
+    destruct (Hapi _ Hc) as [V _]. rewrite (V _ Hin) in G. lia.
+  Qed.
+
+  Theorem atomic_all d ops s c e r :
+    (0 < nl)%nat -> Forall (fun o => op_api o /\ op_nocompact o) ops ->
+    exec (init_sys false d nk nl next) ops 0 = (None, s) ->
+    In c (history (init_sys false d nk nl next) ops) -> cr_cts c <= r -> In e (cr_wr c) ->
+    In e (all_entries (s_db s)) /\ e_ver e <= r.
+  Proof.
+    intros Hnl HP H Hc Hr He.
+    pose proof (exec_reach _ false false d nk nl next ops s HP H) as R.
+    destruct (reach_base_init _ _ _ _ _ _ _ _ _ R) as [_ Hap]. rewrite Forall_forall in Hap.
+    apply (xreach_mono _ xop_api_nc) in R; [|exact api_nc_onbase].
+    destruct (reach_db_inv false d nk nl next _ _ Hnl R) as (_ & _ & Hent & _ & _). cbn [x_base] in Hent.
+    assert (Rapi: xreach xop_api false (init_xsys false d nk nl next) (mkX s false) (history (init_sys false d nk nl next) ops))
+      by (eapply xreach_mono; [|exact R]; intros o' [A _]; exact A).
+    pose proof (reach_rec_api _ _ _ _ _ _ _ _ Rapi) as Hapi. rewrite Forall_forall in Hapi.
+    destruct (Hapi _ Hc) as [V _]. destruct (reach_log _ _ _ _ _ _ _ _ _ Rapi) as [_ Ew]. cbn [x_base] in Ew.
+    split; [|rewrite (V _ He); exact Hr]. apply Hent. rewrite Ew. apply log_writes_in. eauto.
+  Qed.
+
+  (* a commit refused after timestamp allocation writes nothing ... *)
+  Theorem x_rejected_writes_nothing fx s t x cts code :
+    let s' := snd (rejected_commit fx s t x cts code) in
+    s_db s' = s_db s /\ s_writes s' = s_writes s.
+  Proof.
+    destruct (rejected_commit_cases fx s t x cts code)
+      as [(Ep & E)|[(Ep & Ed & E)|[(Ep & Ed & Ec & E)|(Ep & Ed & Ec & E)]]]; rewrite E; cbn; auto.
+  Qed.
+
+  (* ... and with the repair (fx = true) leaves the conflict log alone *)
+  Theorem x_rejected_no_trace_fixed s t x cts code :
+    s_committed (snd (rejected_commit true s t x cts code)) = s_committed s.
+  Proof.
+    destruct (rejected_commit_cases true s t x cts code)
+      as [(Ep & E)|[(Ep & Ed & E)|[(Ep & Ed & Ec & E)|(Ep & Ed & Ec & E)]]]; rewrite E; cbn; auto.
+    now rewrite andb_false_r.
+  Qed.
+End Main2.
+
+(* ---- managed mode: the same serial-read theorem under the caller contract ---- *)
+Theorem managed_serializable_reads nk nl next ops s L1 c L2 k top :
+  Forall op_api ops ->
+  exec (init_sys true true nk nl next) ops 0 = (None, s) ->
+  let L := history (init_sys true true nk nl next) ops in
+  cts_mono L -> reads_below L ->
+  L = L1 ++ c :: L2 -> In k (cr_rd c) -> cr_rts c <= top ->
+  spec_latest (s_writes s) k (cr_rts c) None = spec_latest (log_writes L1) k top None.
+Proof.
+  intros Hapi H L Mo Rb E Hr Ht.
+  pose proof (exec_reach op_api false true true nk nl next ops s Hapi H) as R.
+  apply (xreach_mono _ xop_api) in R; [|exact api_onbase].
+  destruct (reach_log _ _ _ _ _ _ _ _ _ R) as [_ Ew]. cbn [x_base] in Ew. rewrite Ew.
+  eapply (serial_read_eq false); eauto.
+  - eapply reach_ser; eauto.
+  - eapply reach_rec_ok; eauto.
+  - eapply reach_rec_api; eauto.
+Qed.
+
+(* ---------------------------------------------------------------------------------------- *)
+(* finding F12: the witness                                                                  *)
+Definition f12_k : bytes := [107].
+Definition f12_prefix : list xop :=
+  [ Base (Begin 1 true 0); Base (Get 1 f12_k GNotFound);          (* T1 reads k: absent *)
+    Base (Begin 2 true 0); Base (Modify 2 (mkE f12_k 0 0 0 0 [1]) 0);
+    XTooBig 2 0;                                                  (* T2's Commit: ErrTxnTooBig, nothing written *)
+    Base (Modify 1 (mkE [120] 0 0 0 0 [2]) 0) ].
+Definition f12_witness : list xop := f12_prefix ++ [Base (Commit 1 0 1)].  (* T1's Commit: ErrConflict *)
+
+Lemma f12_witness_accepted :
+  fst (xexec false (init_xsys false true 1 1 1) f12_witness 0) = None /\
+  s_writes (x_base (snd (xexec false (init_xsys false true 1 1 1) f12_witness 0))) = [].
+Proof. vm_compute. split; reflexivity. Qed.
+
+Lemma f12_witness_fixed_disagrees :
+  fst (xexec true (init_xsys false true 1 1 1) f12_witness 0) = Some (6, 1).
+Proof. vm_compute. reflexivity. Qed.
+
+Theorem no_false_conflict_refuted :
+  exists ops s t x,
+    xexec false (init_xsys false true 1 1 1) ops 0 = (None, s) /\
+    Forall xop_api ops /\
+    lookup (s_txns (x_base s)) t = Some x /\ x_pend x <> [] /\ x_done x = false /\
+    fst (fst (txn_commit (x_base s) t x 0)) = 1 /\
+    s_writes (x_base s) = [].
+Proof.
+  exists f12_prefix. eexists. exists 1. eexists. split; [vm_compute; reflexivity|].
+  split; [repeat constructor|]. split; [vm_compute; reflexivity|].
+  split; [vm_compute; discriminate|]. split; [reflexivity|]. split; vm_compute; reflexivity.
+Qed.
+
+Theorem rejected_no_trace_refuted :
+  exists ops s t x,
+    xexec false (init_xsys false true 1 1 1) ops 0 = (None, s) /\
+    lookup (s_txns (x_base s)) t = Some x /\
+    let '(code, _, s') := rejected_commit false (x_base s) t x 0 c_errTooBig in
+    code = c_errTooBig /\ s_db s' = s_db (x_base s) /\ s_writes s' = s_writes (x_base s) /\
+    s_committed s' <> s_committed (x_base s) /\ s_next s' <> s_next (x_base s).
+Proof.
+  exists (firstn 4 f12_prefix). eexists. exists 2. eexists. split; [vm_compute; reflexivity|].
+  split; [vm_compute; reflexivity|]. vm_compute. repeat split; discriminate.
+Qed.
